@@ -103,8 +103,8 @@ KERNELS += [
        self_ty='RT', params=[('self', 'RT'), ('link', 'LinkT')], ret='RT'),
   # ---- transition --------------------------------------------------------------------------------
   dict(file=H+'state/entity_state/entity_state_ops.py', fn='transition_previous_to_next', coq='transition_previous_to_next',
-       params=[('sim', 'Sim'), ('env', 'Env'), ('prev_state', 'VState'), ('next_state', 'VState')], ret='res Sim',
-       oracle_binders=[('vs_exit', 'Env -> VState -> VState -> Sim -> res Sim'), ('vs_enter', 'Env -> VState -> Sim -> res Sim')]),
+       params=[('sim', 'Sim'), ('env', 'Env'), ('prev_state', 'VS'), ('next_state', 'VS')], ret='res Sim',
+       oracle_binders=[('vs_exit', 'Env -> VS -> VS -> Sim -> res Sim'), ('vs_enter', 'Env -> VS -> Sim -> res Sim')]),
   # ---- timed inputs: the comparisons -----------------------------------------------------------------
   dict(file=H+'state/simulation_state/update/update_requests_from_file.py', cls='UpdateRequestsFromFile', inside=['update'],
        fn='stop_condition', coq='requests_stop_condition', free=[('current_sim_time', 'Z')], params=[('value', 'Z')], ret='bool'),
